@@ -135,6 +135,8 @@ FODomain ==
        i1 \in IdPool, i2 \in {<<2, 0, 0, 0>>}, s1 \in Sizes, s2 \in Sizes, v1 \in {0, 1}, p1 \in {0, 3}, t1 \in {0, 2, 3}, r1 \in {0, 1},
        ser \in {1, 65535}, cp \in CPaths }
 FOSmall == { f \in FODomain : (f.ot.variable = 1 /\ f.ot.priority = 0 /\ f.ot.type = 2 /\ f.ot.redundant = 0 /\ f.serial = 1 /\ f.ot.id = <<1, 0, 0, 0>>)
+                               \* a Null, fixed, low-priority, exclusive connection: all flag bits zero (ambiguous NCP in a Large Forward Open)
+                               \/ (f.ot.variable = 0 /\ f.ot.priority = 0 /\ f.ot.type = 0 /\ f.ot.redundant = 0 /\ f.serial = 1 /\ f.ot.id = <<1, 0, 0, 0>>)
                                \/ (f.ot.size = 510 /\ f.to.size = 510 /\ f.cpath = << [k |-> "class", v |-> 2], [k |-> "inst", v |-> 1] >>) }
 EmitFO(f) == PrintT(ToJson([k |-> "fwd", f |-> f, large |-> IsLargeFO(f.ot, f.to), b |-> EncForwardOpen(f),
                             rpy |-> EncForwardOpenReply(f, <<64, 66, 15, 0>>, <<128, 132, 30, 0>>), fail |-> EncForwardOpenFail(f, 1, <<256>>),
